@@ -232,6 +232,9 @@ func isOverlapDecision(spec *SchedSpec, n int) bool {
 }
 
 // schedProgress counts scheduler decisions; the hang watchdog (a goroutine outside the bubble, real clock) reads it.
+// batchFaultHook, when set, is called before every scheduler decision of the next RunBatch (input faults positioned in the schedule).
+var batchFaultHook func(n int)
+
 var schedProgress atomic.Int64
 var schedActive atomic.Bool
 
@@ -284,12 +287,17 @@ type BatchOutcome struct {
 	DecisionCap bool
 	TaskIDs     []string // log ids of the runs that reached their first line (run.start hook), sorted
 	Victim      *diskVictim // line whose result streams met injected write errors (excluded from summary and solo oracles)
+	Excused     map[int]string // position in the batch -> why the line is exempt from the summary and solo oracles (judged by the fault's own oracle)
+	AtDecision  func(n int)    // fault hook: called by the scheduler before decision n is taken
 }
 
 // RunBatch executes lines through the real dispatcher under the seeded scheduler.
 func (e *Env) RunBatch(root string, lines []string, spec *SchedSpec, disk *SimDisk, writeLog bool, startLine, endLine int, abortAt int) *BatchOutcome {
 	out := &BatchOutcome{Disk: disk}
 	s := newScheduler(spec)
+	if f := batchFaultHook; f != nil {
+		s.atDecision = func(n int, _ *Scheduler) { f(n) }
+	}
 	session := hermes.NewHermesSession()
 	session.HermesOutWriter = disk.Generator()
 	disk.OnOp = s.diskOp
